@@ -289,9 +289,17 @@ class Body:
         if not p or p["p"]:
             return None
         rv = self._single_def_rv(p["l"])
-        if rv is None or "discr" not in rv or rv["discr"]["p"]:
+        if rv is None or "discr" not in rv:
             return None
         l = rv["discr"]["l"]
+        if rv["discr"]["p"] == ["*"]:
+            # `match &x {..}`: the discriminant is read through a reference taken once of the whole local
+            r0 = self._single_def_rv(l)
+            if r0 is None or "ref" not in r0 or r0["ref"]["p"]:
+                return None
+            l = r0["ref"]["l"]
+        elif rv["discr"]["p"]:
+            return None
         for _ in range(5):
             if l in self.mut_borrowed():
                 return None
@@ -384,6 +392,8 @@ class Body:
 
     def _has_corr(self):
         if getattr(self, "_hc", None) is None:
+            if getattr(self, "_corr_busy", False):
+                return False
             self._hc = bool(self._corr_tables()[1])
         return self._hc
 
@@ -480,6 +490,15 @@ class Body:
         """(block -> [(var, ('tag', name) | ('copy', var) | None)], switch block -> (var, {edge label: set of admissible tags}))"""
         if self._corr is not None:
             return self._corr
+        if getattr(self, "_corr_busy", False):
+            return ({}, {})       # asked again while being built (expression resolution wants live blocks): no correlation yet
+        self._corr_busy = True
+        try:
+            return self._corr_tables_build()
+        finally:
+            self._corr_busy = False
+
+    def _corr_tables_build(self):
         cv = self._corr_vars()
         kind = self._cv_kind
         defs_tag, sw_tag = {}, {}
@@ -509,7 +528,8 @@ class Body:
                 continue
             cond = si["cond"]
             if si["kind"] == "bool":
-                rv_ = self._raw_bool_var(self.blocks[bb]["term"]["d"], cv)
+                is_fn = cond[0] == "call" and cond[2] and cond[1].fn.split("::")[-1] in self._IS_FNS and var_of(cond[2][0]) is not None
+                rv_ = self._raw_bool_var(self.blocks[bb]["term"]["d"], cv) if not is_fn and var_of(cond) is None else None
                 arms = self.blocks[bb]["term"]["arms"]
                 if rv_ is not None and len(arms) == 1 and arms[0][0] in ("0", "1"):
                     (v, parity) = rv_
@@ -563,6 +583,21 @@ class Body:
                 else:
                     m[lab] = ms
             sw_tag[bb] = (v, m)
+        # a learned bool is worth tracking only when it is looked at again: tested by two switches, or tested and copied on
+        learn = getattr(self, "_cv_learn", set())
+        if learn:
+            uses = {}
+            for bb, (v, m) in sw_tag.items():
+                if v in learn:
+                    uses[v] = uses.get(v, 0) + 1
+            for bb, ups in defs_tag.items():
+                for (l, k) in ups:
+                    if k is not None and k[0] == "copy" and k[1] in learn:
+                        uses[k[1]] = uses.get(k[1], 0) + 1
+            drop = {v for v in learn if uses.get(v, 0) < 2}
+            if drop:
+                sw_tag = {bb: vm for bb, vm in sw_tag.items() if vm[0] not in drop}
+                self._cv_learn = learn - drop
         # only variables that are tested somewhere (and the variables their value is copied from) are worth tracking
         need = {v for (v, m) in sw_tag.values()}
         grew = True
@@ -616,6 +651,11 @@ class Body:
                 st = st + ((var, tag),)
         return st[-Body.MAX_CORR_VARS:]
 
+    @staticmethod
+    def _corr_canon(st):
+        """States that know the same things are one state, in whatever order the knowledge was gathered."""
+        return tuple(sorted(st))
+
     def _corr_walk(self, start_states, removed_blocks, removed_edges):
         defs_tag, sw_tag = self._corr_tables()
         seen = set(start_states)
@@ -637,7 +677,7 @@ class Body:
                     want = sw_tag[b][1].get(lab)
                     if want is not None and len(want) == 1:
                         nstate = (state + ((sw_tag[b][0], next(iter(want))),))[-Body.MAX_CORR_VARS:]
-                st = (t, nstate)
+                st = (t, self._corr_canon(nstate))
                 if st not in seen:
                     seen.add(st)
                     dq.append(st)
@@ -692,7 +732,7 @@ class Body:
         """live_blocks(), or None while it is being computed (no recursion through expression resolution)."""
         if getattr(self, "_live", None) is not None:
             return self._live
-        if getattr(self, "_live_busy", False):
+        if getattr(self, "_live_busy", False) or getattr(self, "_corr_busy", False):
             return None
         self._live_busy = True
         try:
